@@ -256,6 +256,8 @@ func FixedCorpus() []*Unit {
 		pa.F("y", 2, S(Sint64))
 		pa.F("label", 3, S(String))
 		pa.F("c", 4, E("verif.impa.Color"))
+		pa.U("weights", 5, S(Double)) // declared-unpacked lists in two files that are generated together
+		pa.U("ratios", 6, S(Float))
 		nested := pa.Nested("Meta")
 		nested.F("k", 1, S(String))
 		nested.R("tags", 2, S(String))
@@ -276,6 +278,9 @@ func FixedCorpus() []*Unit {
 		m.R("cs", 7, E("verif.impa.Color"))
 		m.Map("cm", 8, Int32, E("verif.impa.Color"))
 		m.F("lvl", 10, E("verif.impa.Level"))
+		m.U("weights", 12, S(Double))
+		m.U("ratios", 13, S(Float))
+		m.U("codes", 14, S(Sfixed64))
 		out = append(out, ub)
 	}
 
@@ -389,6 +394,8 @@ func FixedCorpus() []*Unit {
 		mt := fm.Msg("M")
 		mt.F("v", 1, S(Int32))
 		mt.R("tags", 2, S(String))
+		mt.U("weights", 3, S(Double))
+		mt.U("ratios", 4, S(Float))
 		fz := NewFile("verif/samepkg/z_types.proto", "verif.samepkg", gp)
 		fz.Enum("Shape", "SHAPE_UNSPECIFIED", 0, "SHAPE_ROUND", 1, "SHAPE_FLAT", 4)
 		// aliases of the zero value and of 2 whose names sort BEFORE the name declared first
@@ -397,6 +404,8 @@ func FixedCorpus() []*Unit {
 		zt.F("s", 1, E("verif.samepkg.Shape"))
 		zt.Map("m", 2, String, S(Int64))
 		zt.F("mode", 3, E("verif.samepkg.Mode"))
+		zt.U("weights", 4, S(Double))
+		zt.U("ratios", 5, S(Float))
 		fa := NewFile("verif/samepkg/a_main.proto", "verif.samepkg", gp, "verif/samepkg/m_types.proto", "verif/samepkg/z_types.proto")
 		am := fa.Msg("Main")
 		am.F("m", 1, M("verif.samepkg.M"))
@@ -412,6 +421,8 @@ func FixedCorpus() []*Unit {
 		am.F("mode", 10, E("verif.samepkg.Mode"))
 		am.R("modes", 11, E("verif.samepkg.Mode"))
 		am.Map("mode_by", 12, Bool, E("verif.samepkg.Mode"))
+		am.U("weights", 13, S(Double))
+		am.U("ratios", 14, S(Float))
 		out = append(out,
 			&Unit{Name: "samepkg_m", File: fm, Label: []string{"same Go package, file 1 of 3 (imported, messages only)"}},
 			&Unit{Name: "samepkg_z", File: fz, Label: []string{"same Go package, file 2 of 3 (imported, enum + message)"}},
@@ -1036,6 +1047,16 @@ func FixedCorpus() []*Unit {
 		ch := o.Oneof("pick")
 		o.O(ch, "p", 6, M(pr.Full()))
 		o.O(ch, "l", 7, M(le.Full()))
+		// reserved numbers and names: part of the schema, so part of the embedded descriptor
+		o.P.ReservedRange = []*descriptorpb.DescriptorProto_ReservedRange{{Start: proto.Int32(20), End: proto.Int32(31)}, {Start: proto.Int32(1000), End: proto.Int32(1001)}, {Start: proto.Int32(536870911), End: proto.Int32(536870912)}}
+		o.P.ReservedName = []string{"old_pairs", "legacy"}
+		pr.P.ReservedRange = []*descriptorpb.DescriptorProto_ReservedRange{{Start: proto.Int32(3), End: proto.Int32(4)}}
+		pr.P.ReservedName = []string{"extra"}
+		f.Enum("Era", "ERA_UNSPECIFIED", 0, "ERA_NEW", 5)
+		era := f.P.EnumType[len(f.P.EnumType)-1]
+		era.ReservedRange = []*descriptorpb.EnumDescriptorProto_EnumReservedRange{{Start: proto.Int32(1), End: proto.Int32(4)}, {Start: proto.Int32(-10), End: proto.Int32(-10)}}
+		era.ReservedName = []string{"ERA_OLD"}
+		o.F("era", 8, E(f.P.GetPackage()+".Era"))
 		out = append(out, u)
 	}
 
